@@ -154,6 +154,35 @@ fn main() {
         std::process::exit(2);
     }
     let id = args[1].clone();
+    if id == "CORPUS" {
+        // regenerate the committed seed corpus for the reader_raw fuzz target (fixtures + encoder output)
+        let dir = std::path::Path::new("/verif/corpus/raw");
+        std::fs::create_dir_all(dir).unwrap();
+        let put = |name: &str, shp: &[u8], shx: &[u8]| {
+            let mut v = (shp.len().min(65535) as u16).to_le_bytes().to_vec();
+            v.extend_from_slice(shp);
+            v.extend_from_slice(shx);
+            std::fs::write(dir.join(name), v).unwrap();
+        };
+        for e in std::fs::read_dir("/repo/tests/data").unwrap().flatten() {
+            let p = e.path();
+            if p.extension().map(|x| x == "shp").unwrap_or(false) {
+                let shp = std::fs::read(&p).unwrap();
+                if shp.len() > 4000 {
+                    continue;
+                }
+                let shx = std::fs::read(p.with_extension("shx")).unwrap_or_default();
+                put(&format!("fixture-{}", p.file_stem().unwrap().to_string_lossy()), &shp, &shx);
+            }
+        }
+        let strat = c03::file_model(3, 3, 4);
+        for k in 0..40u64 {
+            let m: vlib::refcodec::FileModel = sample_strategy(&strat, 7, &format!("corpus-{}", k));
+            let e = vlib::refcodec::encode(&m);
+            put(&format!("model-{:02}-{}", k, m.ty.name()), &e.shp, &e.shx);
+        }
+        return;
+    }
     let mut tier = match std::env::var("VERIF_TIER").ok().as_deref() {
         Some("thorough") => Tier::Thorough,
         _ => Tier::Quick,
